@@ -59,35 +59,123 @@ theorem pegText_ok {n : Nat} (hn : n ≤ buf.size) : ∀ {t : T}, Safe ids.rPegT
 
 end Generic
 
-/-! ### Kids inversion -/
+/-! ### the regenerated grammar -/
 
-theorem Kids.call_inv {g : Grammar} {nul : List Bool} {r : Nat} {t : T} (h : Kids g nul (.call r) t) :
-    (t = .nil ∧ nul.getD r true = true) ∨
-    ∃ body b e up, g.rules[r]? = some body ∧ t = .node r b e up .nil ∧ b < e ∧ Kids g nul body up := by
-  cases h with
-  | callEmpty h => exact .inl ⟨rfl, h⟩
-  | callNode hb hk hlt => exact .inr ⟨_, _, _, _, hb, rfl, hlt, hk⟩
+abbrev G := Generated.C03.grammar
+abbrev NUL := Generated.C03.nul
+abbrev ids := Generated.C03.ids
+open Generated.C03 in
+abbrev dummyR := R.Document
+open Generated.C03
 
-theorem Safe.up {pt n r b e : Nat} {u nx : T} (h : Safe pt n (.node r b e u nx)) : Safe pt n u := by
-  cases h with | node _ _ _ hu _ => exact hu
+/-- body of rule `r` in the regenerated grammar -/
+def ruleBody (r : Nat) : Expr := Generated.C03.rules.getD r .eps
 
-theorem Safe.next {pt n r b e : Nat} {u nx : T} (h : Safe pt n (.node r b e u nx)) : Safe pt n nx := by
-  cases h with | node _ _ _ _ hn => exact hn
+theorem body_eq {r : Nat} {body : Expr} (h : G.rules[r]? = some body) : body = ruleBody r := by
+  have : Generated.C03.rules[r]? = some body := by
+    simpa [G, Generated.C03.grammar] using h
+  simp [ruleBody, List.getD_eq_getElem?_getD, this]
 
-theorem Safe.of_append_left {pt n : Nat} {a b : T} (h : Safe pt n (a.append b)) : Safe pt n a := by
-  induction a with
+/-- a call of a rule marked non-nullable leaves exactly one node, whose children conform to the rule's body -/
+theorem kids_call {r : Nat} {t : T} (hnul : NUL.getD r true = false) (h : Kids G NUL (.call r) t) :
+    ∃ b e up, t = .node r b e up .nil ∧ b < e ∧ Kids G NUL (ruleBody r) up := by
+  rcases h.call_inv with ⟨_, h2⟩ | ⟨body, b, e, up, hb, rfl, hlt, hk⟩
+  · rw [hnul] at h2; cases h2
+  · exact ⟨b, e, up, rfl, hlt, body_eq hb ▸ hk⟩
+
+/-- a call of any rule leaves nothing or one node -/
+theorem kids_call_opt {r : Nat} {t : T} (h : Kids G NUL (.call r) t) :
+    t = .nil ∨ ∃ b e up, t = .node r b e up .nil ∧ b < e ∧ Kids G NUL (ruleBody r) up := by
+  rcases h.call_inv with ⟨h1, _⟩ | ⟨body, b, e, up, hb, rfl, hlt, hk⟩
+  · exact .inl h1
+  · exact .inr ⟨b, e, up, rfl, hlt, body_eq hb ▸ hk⟩
+
+/-- every node of a sibling chain satisfies `P rule up` -/
+inductive All (P : Nat → T → Prop) : T → Prop
+  | nil : All P .nil
+  | node {r b e up next} : P r up → All P next → All P (.node r b e up next)
+
+theorem All.append {P : Nat → T → Prop} {a b : T} (ha : All P a) (hb : All P b) : All P (a.append b) := by
+  induction ha with
+  | nil => exact hb
+  | node h _ ihn => exact .node h ihn
+
+theorem All.imp {P Q : Nat → T → Prop} {t : T} (h : All P t) (hpq : ∀ r up, P r up → Q r up) : All Q t := by
+  induction h with
   | nil => exact .nil
-  | node r b0 e0 up next _ ihn =>
-    simp only [T.append] at h
-    cases h with
-    | node h1 h2 h3 hu hn => exact .node h1 h2 h3 hu (ihn hn)
+  | node h _ ihn => exact .node (hpq _ _ h) ihn
 
-theorem Safe.of_append_right {pt n : Nat} {a b : T} (h : Safe pt n (a.append b)) : Safe pt n b := by
-  induction a with
-  | nil => exact h
-  | node r b0 e0 up next _ ihn =>
-    simp only [T.append] at h
-    cases h with
-    | node h1 h2 h3 hu hn => exact ihn hn
+/-- the chain a `(call r)*` leaves: nodes of rule `r` whose children conform -/
+theorem kids_star_call {r : Nat} {t : T} (h : Kids G NUL (.star (.call r)) t) :
+    All (fun r' up => r' = r ∧ Kids G NUL (ruleBody r) up) t := by
+  generalize he : Expr.star (.call r) = e at h
+  induction h with
+  | starNil => exact .nil
+  | starCons h1 _ _ ih2 =>
+    injection he with he'
+    subst he'
+    rcases kids_call_opt h1 with rfl | ⟨b, e, up, rfl, _, hk⟩
+    · exact ih2 rfl
+    · exact All.append (.node ⟨rfl, hk⟩ .nil) (ih2 rfl)
+  | _ => cases he
+
+/-! ### annotations -/
+
+theorem parseAnnotation_np (buf : Array Nat) (n : Nat) (hn : n ≤ buf.size) (b e : Nat) (up next : T)
+    (hs : Safe ids.rPegText n up) (hk : Kids G NUL (ruleBody ids.rAnnotation) up) :
+    NP (parseAnnotation ids buf (.node ids.rAnnotation b e up next)) := by
+  change Kids G NUL (.seq (.call ids.rIdentifier) (.seq (.call ids.rEQUAL) (.seq (.call ids.rLiteral) (.opt (.call ids.rListSeparator))))) up at hk
+  cases hk with
+  | seq h1 h2 =>
+    obtain ⟨b1, e1, u1, rfl, _, _⟩ := kids_call (by decide) h1
+    cases h2 with
+    | seq h2 h3 =>
+      obtain ⟨b2, e2, u2, rfl, _, _⟩ := kids_call (by decide) h2
+      cases h3 with
+      | seq h3 h4 =>
+        obtain ⟨b3, e3, u3, rfl, _, _⟩ := kids_call (by decide) h3
+        simp only [T.append] at hs ⊢
+        obtain ⟨k, hk⟩ := pegText_ok ids buf hn hs
+        obtain ⟨v, hv⟩ := pegText_ok ids buf hn hs.next.next
+        simp only [ids, Generated.C03.ids] at hk hv ⊢
+        simp [parseAnnotation, checkrule, rule?, up?, next?, hk, hv]
+
+theorem annLoop_np (buf : Array Nat) (n : Nat) (hn : n ≤ buf.size) : ∀ (t : T) (acc : Anns),
+    Safe ids.rPegText n t → All (fun r up => r = ids.rAnnotation → Kids G NUL (ruleBody ids.rAnnotation) up) t →
+    NP (annLoop ids buf acc t) := by
+  intro t
+  induction t with
+  | nil => intro acc _ _; simp [annLoop]
+  | node r b e up next _ ihn =>
+    intro acc hs ha
+    cases ha with
+    | node hp hrest =>
+      simp only [annLoop]
+      split
+      · rename_i hr
+        have := parseAnnotation_np buf n hn b e up next hs.up (hp hr)
+        rw [← hr] at this
+        cases hpa : parseAnnotation ids buf (.node r b e up next) with
+        | ok kv => obtain ⟨k, v⟩ := kv; simp only []; exact ihn _ hs.next hrest
+        | err => simp
+        | panic => exact absurd hpa this.1
+        | crash => exact absurd hpa this.2
+      · exact ihn _ hs.next hrest
+
+theorem parseAnnotations_np (buf : Array Nat) (n : Nat) (hn : n ≤ buf.size) (b e : Nat) (up next : T)
+    (hs : Safe ids.rPegText n up) (hk : Kids G NUL (ruleBody ids.rAnnotations) up) :
+    NP (parseAnnotations ids buf (.node ids.rAnnotations b e up next)) := by
+  change Kids G NUL (.seq (.call R.LPAR) (.seq (.star (.call ids.rAnnotation)) (.call R.RPAR))) up at hk
+  cases hk with
+  | seq h1 h2 =>
+    obtain ⟨b1, e1, u1, rfl, _, _⟩ := kids_call (by decide) h1
+    cases h2 with
+    | seq h2 h3 =>
+      obtain ⟨b3, e3, u3, rfl, _, _⟩ := kids_call (by decide) h3
+      have hall := kids_star_call h2
+      simp only [T.append] at hs ⊢
+      have hloop := annLoop_np buf n hn _ [] hs.next
+        (All.append (hall.imp (fun r up h _ => h.2)) (.node (fun h => absurd h (by decide)) .nil))
+      simpa [parseAnnotations, checkrule, rule?, up?, next?] using hloop
 
 end Walker
